@@ -81,6 +81,11 @@ fn a64_core_redirect() {
         let j = sim::JIT[0].base;
         kani::assume(t != j);
 
+        kani::cover!(j > f, "COVER: trampoline above the target");
+        kani::cover!(j < f, "COVER: trampoline below the target");
+        kani::cover!(j.wrapping_sub(f) == 0x7FF_F000, "COVER: largest forward displacement");
+        kani::cover!(f.wrapping_sub(j) == 0x800_0000, "COVER: largest backward displacement");
+        kani::cover!(t >= (1u64 << 48), "COVER: fake address uses the top 16-bit chunk");
         let c0 = any_a64(f);
         let mut c = c0;
         run(&mut c, 1);
@@ -107,11 +112,6 @@ fn a64_core_redirect() {
             k += 1;
         }
         assert!(sim::live_jits() == 1, "VERIF[C12]: live trampolines differ from live guards after install");
-        kani::cover!(j > f, "COVER: trampoline above the target");
-        kani::cover!(j < f, "COVER: trampoline below the target");
-        kani::cover!(j.wrapping_sub(f) == 0x7FF_F000, "COVER: largest forward displacement");
-        kani::cover!(f.wrapping_sub(j) == 0x800_0000, "COVER: largest backward displacement");
-        kani::cover!(t >= (1u64 << 48), "COVER: fake address uses the top 16-bit chunk");
         drop(g);
         after_drop(&orig);
     }
